@@ -1140,7 +1140,9 @@ void XMLDateTime::getTime()
     {
         fStart++;   // skip the '.'
         // make sure we have some thing between the '.' and fEnd
-        if (fStart >= fEnd)
+        // (or the time zone, if there is one)
+        if (fStart >= fEnd ||
+            (sign != NOT_FOUND && XMLSize_t (sign) == fStart))
         {
             ThrowXMLwithMemMgr1(SchemaDateTimeException
                     , XMLExcepts::DateTime_ms_noDigit
